@@ -322,7 +322,7 @@ def h7(prog, tier="quick"):
         for a in allm:
             for b in allm:
                 va, vb = VAset(mkcov(_canon(a, U)), 0), VAset(mkcov(_canon(b, U)), 0)
-                ok, r = run(f, Obj(), [va, vb], key, "`%s` on %s and %s" % (w, show(_canon(a, U)), show(_canon(b, U))))
+                ok, r = run(f, _op(ev, f), [va, vb], key, "`%s` on %s and %s" % (w, show(_canon(a, U)), show(_canon(b, U))))
                 n_w += 1
                 if not ok:
                     continue
@@ -340,7 +340,7 @@ def h7(prog, tier="quick"):
         for a in allm:
             for b in allm:
                 va, vb = VAset(mkcov(_canon(a, U)), 0), VAset(mkcov(_canon(b, U)), 0)
-                ok, r = run(f, Obj(), [va, vb], key, "`%s` on %s and %s" % (w, show(_canon(a, U)), show(_canon(b, U))))
+                ok, r = run(f, _op(ev, f), [va, vb], key, "`%s` on %s and %s" % (w, show(_canon(a, U)), show(_canon(b, U))))
                 n_w += 1
                 if ok:
                     got = pr(r)
@@ -376,20 +376,20 @@ def h7(prog, tier="quick"):
         members = [U[i] for i in range(n) if a >> i & 1]      # contiguous list: one address per segment
         sa = show(runs)
         mk = lambda: VAset(mkcov(runs), 0)
-        ok, r = run(f_len, Obj(), [mk()], "H7:word:length", "`length` on " + sa)
+        ok, r = run(f_len, _op(ev, f_len), [mk()], "H7:word:length", "`length` on " + sa)
         if ok and (r.c.v != len(members) or r.pos != 0 or r.c.dom != "dec"):
             report("H7:word:length", "libzwerg/" + f_len["l"], "`length` on %s yields %s (domain %s, pos %s); the set has %d addresses" % (sa, r.c.v, r.c.dom, r.pos, len(members)))
-        ok, r = run(f_low, Obj(), [mk()], "H7:word:low", "`low` on " + sa)
+        ok, r = run(f_low, _op(ev, f_low), [mk()], "H7:word:low", "`low` on " + sa)
         if ok and ((r is None) != (not members) or (r is not None and (r.c.v != members[0] or r.pos != 0))):
             report("H7:word:low", "libzwerg/" + f_low["l"], "`low` on %s yields %s" % (sa, None if r is None else hex(r.c.v)))
-        ok, r = run(f_high, Obj(), [mk()], "H7:word:high", "`high` on " + sa)
+        ok, r = run(f_high, _op(ev, f_high), [mk()], "H7:word:high", "`high` on " + sa)
         if ok and ((r is None) != (not members) or (r is not None and (r.c.v != members[-1] + 1 or r.pos != 0))):
             report("H7:word:high", "libzwerg/" + f_high["l"], "`high` on %s yields %s" % (sa, None if r is None else hex(r.c.v)))
-        ok, r = run(f_empty, Obj(), [mk()], "H7:word:?empty", "`?empty` on " + sa)
+        ok, r = run(f_empty, _op(ev, f_empty), [mk()], "H7:word:?empty", "`?empty` on " + sa)
         if ok and pr(r) != ("yes" if not members else "no"):
             report("H7:word:?empty", "libzwerg/" + f_empty["l"], "`?empty` on %s answers %s" % (sa, r))
         for f_e, w, want in ((f_elem, "elem", members), (f_relem, "relem", members[::-1])):
-            ok, p = run(f_e, Obj(), [mk()], "H7:word:" + w, "`%s` on %s" % (w, sa))
+            ok, p = run(f_e, _op(ev, f_e), [mk()], "H7:word:" + w, "`%s` on %s" % (w, sa))
             if not ok:
                 continue
             vals = drain(p, nexts["(anonymous namespace)::elem_aset_producer"], "H7:word:" + w, "`%s` on %s" % (w, sa))
@@ -399,7 +399,7 @@ def h7(prog, tier="quick"):
             if got != want or [v.pos for v in vals] != list(range(len(vals))):
                 report("H7:word:" + w, "libzwerg/" + nexts["(anonymous namespace)::elem_aset_producer"]["l"],
                        "`%s` on %s yields %s numbered %s; expected %s numbered from 0" % (w, sa, [hex(x) for x in got], [v.pos for v in vals], [hex(x) for x in want]))
-        ok, p = run(f_range, Obj(), [mk()], "H7:word:range", "`range` on " + sa)
+        ok, p = run(f_range, _op(ev, f_range), [mk()], "H7:word:range", "`range` on " + sa)
         if ok:
             vals = drain(p, nexts["(anonymous namespace)::aset_range_producer"], "H7:word:range", "`range` on " + sa)
             if vals is not None:
@@ -410,22 +410,22 @@ def h7(prog, tier="quick"):
         for x in U[:-1]:
             bit = 1 << idx[x]
             cst = lambda: VCst(Cst(x, "address"), 0)
-            ok, r = run(f_addc, Obj(), [mk(), cst()], "H7:word:add-cst", "`add` of %#x to %s" % (x, sa))
+            ok, r = run(f_addc, _op(ev, f_addc), [mk(), cst()], "H7:word:add-cst", "`add` of %#x to %s" % (x, sa))
             if ok:
                 m, why = denote(r.cov, U, "the result of `add` of %#x to %s" % (x, sa))
                 if m is None or m != a | bit:
                     report("H7:word:add-cst", "libzwerg/" + f_addc["l"], why or "`add` of %#x to %s yields %s" % (x, sa, show(_canon(m, U))))
-            ok, r = run(f_subc, Obj(), [mk(), cst()], "H7:word:sub-cst", "`sub` of %#x from %s" % (x, sa))
+            ok, r = run(f_subc, _op(ev, f_subc), [mk(), cst()], "H7:word:sub-cst", "`sub` of %#x from %s" % (x, sa))
             if ok:
                 m, why = denote(r.cov, U, "the result of `sub` of %#x from %s" % (x, sa))
                 if m is None or m != a & ~bit:
                     report("H7:word:sub-cst", "libzwerg/" + f_subc["l"], why or "`sub` of %#x from %s yields %s" % (x, sa, show(_canon(m, U))))
-            ok, r = run(f_contc, Obj(), [mk(), cst()], "H7:word:?contains-cst", "`?contains` %#x on %s" % (x, sa))
+            ok, r = run(f_contc, _op(ev, f_contc), [mk(), cst()], "H7:word:?contains-cst", "`?contains` %#x on %s" % (x, sa))
             if ok and pr(r) != ("yes" if a & bit else "no"):
                 report("H7:word:?contains-cst", "libzwerg/" + f_contc["l"], "`?contains` %#x on %s answers %s" % (x, sa, r))
     for x in U:
         for y in U:
-            ok, r = run(f_mk, Obj(), [VCst(Cst(x, "address"), 0), VCst(Cst(y, "address"), 0)], "H7:word:aset", "`aset` of %#x and %#x" % (x, y))
+            ok, r = run(f_mk, _op(ev, f_mk), [VCst(Cst(x, "address"), 0), VCst(Cst(y, "address"), 0)], "H7:word:aset", "`aset` of %#x and %#x" % (x, y))
             if ok:
                 lo, hi = min(x, y), max(x, y)
                 m, why = denote(r.cov, U, "`%#x %#x aset`" % (x, y))
@@ -459,3 +459,14 @@ def h7(prog, tier="quick"):
             report("H7:value_aset::cmp", "libzwerg/" + fc["l"], "value_aset::cmp is not antisymmetric on %s and %s (%s / %s)" % (show(_canon(a, U)), show(_canon(b, U)), r, back))
     inst.append(("H7:value_aset::cmp", {"pairs": len(rel)}))
     return inst, findings
+
+
+_OPS = {}
+
+
+def _op(ev, f):
+    """one operator object per word and evaluator, reused for every input (as a compiled query reuses it for every stack)"""
+    k = (id(ev), f["fid"])
+    if k not in _OPS:
+        _OPS[k] = ev.new_object(f.get("cls") or "op")
+    return _OPS[k]
